@@ -93,11 +93,14 @@ pub fn run() {
                     count_files(&dir).to_string()
                 }
                 ["evwrite", k] => {
+                    let t0 = std::time::Instant::now();
                     for i in 0..k.parse::<u64>().unwrap() {
                         event_logger::write_event(proxy_agent_shared::logger::LoggerLevel::Info, format!("event {}", i), "m", "mod", "none");
                     }
+                    let ms = t0.elapsed().as_millis();
                     tokio::time::sleep(std::time::Duration::from_millis(90)).await;
-                    count_files(&evdir.clone().unwrap()).to_string()
+                    // file count, and how long the burst took to enqueue (a burst longer than the 15 ms flush interval spans several flushes)
+                    format!("{} {}", count_files(&evdir.clone().unwrap()), ms)
                 }
                 ["evrm", k] => {
                     let dir = evdir.clone().unwrap();
